@@ -217,7 +217,10 @@ def evaluate(component, cases, outcome, keep_samples=3, batch=2000, deadline=Non
         outcome.cases += 1
         try:
             qs = component.run_impl(case, outcome)
-        except Exception as e:  # noqa  -- the harness could not observe the implementation on this case
+        except (KeyboardInterrupt, SystemExit):
+            raise
+        except BaseException as e:  # noqa  -- the harness could not observe the implementation on this case (also: an escaping
+            # CancelledError / watchdog): counted, and reported as "no longer shown to hold" if no failing input is found
             import traceback
             outcome.harness_errors.append((case, "".join(traceback.format_exception_only(type(e), e)).strip()))
             continue
